@@ -32,13 +32,15 @@ DIMS = {
     'path': ['old', 'new'],
     'ngauss': [2, 3],
     # second molecule tabulated on its own, coarser and shifted wavenumber grid
-    'grids': ['same', 'different'],
+    # ... or on a grid with as many points and the same first and last point as the model grid, spaced differently
+    'grids': ['same', 'different', 'same-ends'],
 }
 MAGS = {'thin': (1e-33, None), 'tau1': (1e-27, None), 'mixed': (1.0, [1e-33, 1e-27, 1e-24, 1e-18]),
         'sat': (1e-18, None)}
 
 
 WN2 = [800.0, 2300.0, 4300.0]
+WN3 = [1000.0, 1600.0, 2800.0, 4000.0]
 
 
 def base_tables(case):
@@ -48,13 +50,19 @@ def base_tables(case):
         if mol == 'CH4' and case.get('grids') == 'different':
             per2 = None if per is None else [per[0], per[2], per[3]]
             tabs[mol] = fx.table(3, 3, 3, 1.0, salt=('c20', mol, 'g2'), pattern='generic', per_wn=per2) * mag * f
+        elif mol == 'CH4' and case.get('grids') == 'same-ends':
+            tabs[mol] = fx.table(3, 3, 4, 1.0, salt=('c20', mol, 'g3'), pattern='generic', per_wn=per) * mag * f
         else:
             tabs[mol] = fx.table(3, 3, 4, 1.0, salt=('c20', mol), pattern='generic', per_wn=per) * mag * f
     return tabs
 
 
 def grid_of(case, mol):
-    return WN2 if (mol == 'CH4' and case.get('grids') == 'different') else WN
+    if mol == 'CH4' and case.get('grids') == 'different':
+        return WN2
+    if mol == 'CH4' and case.get('grids') == 'same-ends':
+        return WN3
+    return WN
 
 
 def gmult(case):
@@ -193,6 +201,32 @@ HIST_ALPHABET = [['T', 700.0], ['T', 1900.0], ['planet_radius', 0.7], ['planet_m
 HIST_REDUCED = [['T', 700.0], ['T', 1900.0], ['H2O', 1e-2], ['atm_max_pressure', 1e5]]
 
 
+# the installed k-tables are replaced under a live model (another resolution / quadrature of the same line list):
+# other weights with the same number of points, and another number of points
+HIST_ENV = [['__env__', 'weights'], ['__env__', 'points']]
+ENV_GW = {None: [0.2, 0.5, 0.3], 'weights': [0.6, 0.3, 0.1], 'points': [0.35, 0.65]}
+
+
+def hist_env(case, which):
+    hist_install(case, ENV_GW[which], 'ktables_' + which)
+
+
+def hist_install(case, gw, dirname='ktables'):
+    c = {'mag': 'tau1', 'gw': gw, 'spread': 3.0, 'grids': case['grids']}
+    tabs = base_tables(c)
+    k = dict((mol, t[..., None] * gmult(c)[None, None, None, :]) for mol, t in tabs.items())
+    from taurex.cache import GlobalCache
+    from taurex.cache.ktablecache import KTableCache
+    import os
+    d = fx.fresh_dir(dirname)
+    for mol, kk in k.items():
+        fx.write_pickle_ktable(os.path.join(d, '%s.pickle' % mol), mol, grid_of(c, mol), TG, PG, kk, c['gw'])
+    GlobalCache()['xsec_interpolation'] = 'linear'
+    GlobalCache()['opacity_method'] = 'ktables'
+    KTableCache().set_ktable_path(d)
+    KTableCache().clear_cache()
+
+
 def hist_build(case):
     fx.reset_caches()
     c = {'mag': 'tau1', 'gw': [0.2, 0.5, 0.3], 'spread': 3.0, 'grids': case['grids']}
@@ -214,7 +248,8 @@ def hist_build(case):
 
 def hist_fn(case):
     r = core.R(case)
-    rthist.run_history(r, case['hist'], lambda: hist_build(case), 'ktables/%s/%s' % (case['kind'], case['grids']))
+    rthist.run_history(r, case['hist'], lambda: hist_build(case), 'ktables/%s/%s' % (case['kind'], case['grids']),
+                       env_apply=lambda which: hist_env(case, which))
     return r
 
 
@@ -233,5 +268,8 @@ def explore(ctx):
         hs = rthist.histories(HIST_ALPHABET, 3, HIST_REDUCED, 4)
         cfgs = [(k, g) for k in ('transmission', 'emission') for g in ('same', 'different')]
     hcases = [{'kind': k, 'grids': g, 'hist': h} for (k, g) in cfgs for h in hs]
+    he = rthist.histories(HIST_ENV + HIST_REDUCED, 2 if ctx.tier == 'quick' else 3)
+    hcases += [{'kind': k, 'grids': 'same', 'hist': h} for k in ('transmission', 'emission') for h in he
+               if any(o[0] == '__env__' for o in h)]
     ctx.bounds.update(histories=len(hcases), history_depth=2 if ctx.tier == 'quick' else 3)
     ctx.run_cases('hist_fn', hcases, phase='histories')
